@@ -686,15 +686,29 @@ int main(int argc, char **argv)
 		/* the constructor that opens the file itself (lha_input_stream_from): with every single allocation of
 		 * open + reader + two entries + free failing in turn, the file it opened is closed again and nothing stays allocated */
 		int ai;
-		for (ai = 0; ai < NARCS; ++ai) {
+		/* archives NARCS..NARCS+4 are files in which the library finds no member (the stream ends up in its failed state)
+		 * or finds it late: empty, 100 bytes of filler, the first 10 bytes of archive 0, 300 KiB of filler + archive 0
+		 * (beyond the search window), 1000 bytes of filler + archive 0 */
+		for (ai = 0; ai < NARCS + 5; ++ai) {
 			char path[64];
 			long K = 0, kk;
 			FILE *wf;
+			static uint8_t filler[300 * 1024];
+			size_t nfill = 0, narc = ai < NARCS ? ARCS[ai].n : 0;
+			const uint8_t *arcbuf = ai < NARCS ? ARCS[ai].buf : NULL;
+			if (ai >= NARCS) {
+				int kind = ai - NARCS;
+				memset(filler, 'x', sizeof filler);
+				nfill = kind == 1 ? 100 : kind == 3 ? sizeof filler : kind == 4 ? 1000 : 0;
+				if (kind >= 2) { arcbuf = ARCS[0].buf; narc = kind == 2 ? (ARCS[0].n < 10 ? ARCS[0].n : 10) : ARCS[0].n; }
+			}
 			if (!vf_case("archive=%d opened by name: every allocation failing in turn", ai)) continue;
 			snprintf(path, sizeof path, "fromfile.%d.lzh", (int) getpid());
 			wf = __real_fopen(path, "wb");
 			if (!wf) { printf("HARNESS cannot write %s\n", path); continue; }
-			fwrite(ARCS[ai].buf, 1, ARCS[ai].n, wf); __real_fclose(wf);
+			if (nfill) fwrite(filler, 1, nfill, wf);
+			if (narc) fwrite(arcbuf, 1, narc, wf);
+			__real_fclose(wf);
 			for (kk = -1; kk < (K ? K : 1); ++kk) {
 				LHAInputStream *st;
 				int fds0 = count_fds();
